@@ -65,6 +65,10 @@ def Fault.bad : Fault → Nat → Bool
   | .admin l, i => l.contains i
   | _, _ => false
 
+def Fault.isShard : Fault → Nat → Bool
+  | .shard j, k => j == k
+  | _, _ => false
+
 def Fault.isReload : Fault → Bool
   | .reloadSend => true
   | .reloadResult => true
@@ -100,6 +104,8 @@ structure FW (p : Nat) where
   mainHosts : Bool := false                  -- haproxy.cfg references the host maps
   pcI : Fin p → Bool := fun _ => false       -- the object in `items x` has its `pathConfig` (see `pairOK`)
   pcD : Fin p → Bool := fun _ => false       -- the object in `itemsDel x` has it
+  pmI : Fin p → Bool := fun _ => false       -- the object in `items x` went through WriteBackendMaps: `PathsMap` is set
+  pmD : Fin p → Bool := fun _ => false
   run : Files p := {}                        -- what the running HAProxy holds
   pending : Bool := false                    -- the reload queue holds an item
 
@@ -218,59 +224,106 @@ def setDisk (w : FW p) (d : Disk p) : FW p := { w with g := { w.g with w := { w.
 def reload (sh : Sh p) (f : Fault) (w : FW p) : FW p × Bool :=
   if f.isReload then (w, true) else ({ w with run := load sh w }, false)
 
-/-- one `HAProxyUpdate` with fault `f` -/
-def upd (o : Opt) (sh : Sh p) (f : Fault) (w : FW p) : Res p :=
+/-- state of one `HAProxyUpdate` after the dynamic update (stage 5) -/
+structure Mid (p : Nat) where
+  w : FW p              -- files written so far, running servers after the Sends, `pathConfig`/`PathsMap` flags
+  s : Store p           -- backends after Shrink and the dynamic update
+  hs : HStore p         -- hosts after Shrink and WriteFrontendMaps
+  sends : Nat
+  updated : Bool
+  bchg : Bool           -- `Backends().Changed()`
+
+/-- `Shrink` puts the deleted object back for a matched name: its flags come back with it -/
+def shrinkFlags (w : FW p) : FW p :=
+  { w with pcI := fun x => if matched w.g.w.store x then w.pcD x else w.pcI x
+           pmI := fun x => if matched w.g.w.store x then w.pmD x else w.pmI x }
+
+/-- the loop of WriteBackendMaps over ItemsAdd calls `NeedACL()` and sets `PathsMap` -/
+def mapFlags (s : Store p) (w : FW p) : FW p :=
+  { w with pcI := fun x => (s.add x).isSome || w.pcI x
+           pmI := fun x => (s.add x).isSome || w.pmI x }
+
+def bmWrite (o : Opt) (s : Store p) (w : FW p) : FW p :=
+  { w with bm := fun x => match s.add x with
+      | some c => if o.needACL (conf c) then some (conf c) else w.bm x
+      | none => w.bm x }
+
+def bmFiles (o : Opt) (s : Store p) : Bool :=
+  anyFin fun x => match s.add x with | some c => o.needACL (conf c) | none => false
+
+/-- stage 5 -/
+def dynStage (sh : Sh p) (bad : Nat → Bool) (w0 : FW p) (s0 : Store p) (hs0 hs1 : HStore p) (w4 : FW p) : Mid p :=
+  -- `hasCommittedData() && checkConfigChange()`: without committed data no command is sent
+  let dynRuns := w0.g.committed
+  { w := if dynRuns then { w4 with run := { w4.run with back := dynRun s0 bad w4.run.back } } else w4
+    s := if dynRuns then dynStore sh s0 else s0
+    hs := hs1
+    sends := if dynRuns then totalSends s0 else 0
+    updated := dynRuns && !w0.tcp.changed && !hs0.isChanged && backendUpdated s0 bad w4.run.back w0.pcD
+    bchg := backChanged s0 }
+
+/-- stages 1 to 5; `Except.error` = the update returned at a failed write -/
+def pre (o : Opt) (sh : Sh p) (f : Fault) (w : FW p) : Except (Res p) (Mid p) :=
   let s0 := shrink sh w.g.w.store
   let hs0 := w.h.shrink
-  let w : FW p := { w with pcI := fun x => if matched w.g.w.store x then w.pcD x else w.pcI x }
+  let w := shrinkFlags w
   -- 1
-  if w.tcp.changed && f == .tcpMaps then { w := commitAll w s0 hs0, err := true } else
+  if w.tcp.changed && f == .tcpMaps then .error { w := commitAll w s0 hs0, err := true } else
   let w1 : FW p := if w.tcp.changed then { w with tcp := { w.tcp with map := w.tcp.want } } else w
   -- 2
-  if !hSkip hs0 && f == .frontMaps then { w := commitAll w1 s0 hs0, err := true } else
+  if !hSkip hs0 && f == .frontMaps then .error { w := commitAll w1 s0 hs0, err := true } else
   let hs1 := hWrite hs0
   let w1 : FW p := { w1 with h := hs1 }
   -- 3
   let bchg := backChanged s0
-  let bmFiles := anyFin fun x => match s0.add x with | some c => o.needACL (conf c) | none => false
-  if bchg && bmFiles && f == .backMaps then { w := commitAll w1 s0 hs1, err := true } else
-  let w3 : FW p := if bchg then
-      { w1 with bm := fun x => match s0.add x with
-                  | some c => if o.needACL (conf c) then some (conf c) else w1.bm x
-                  | none => w1.bm x
-                pcI := fun x => (s0.add x).isSome || w1.pcI x }
-    else w1
+  let w2 : FW p := if bchg then mapFlags s0 w1 else w1
+  if bchg && bmFiles o s0 && f == .backMaps then .error { w := commitAll w2 s0 hs1, err := true } else
+  let w3 : FW p := if bchg then bmWrite o s0 w2 else w2
   -- 4
-  if w.tcp.want != 0 && f == .crtLists then { w := commitAll w3 s0 hs1, err := true } else
+  if w.tcp.want != 0 && f == .crtLists then .error { w := commitAll w3 s0 hs1, err := true } else
   let w4 : FW p := if w.tcp.want != 0 then { w3 with tcp := { w3.tcp with crt := w.tcp.want } } else w3
-  -- 5  `hasCommittedData() && checkConfigChange()`: without committed data no command is sent
-  let dynRuns := w.g.committed
-  let s5 := if dynRuns then dynStore sh s0 else s0
-  let sends := if dynRuns then totalSends s0 else 0
-  let w5 : FW p := if dynRuns then { w4 with run := { w4.run with back := dynRun s0 f.bad w4.run.back } } else w4
-  let updated := dynRuns && !w.tcp.changed && !hs0.isChanged && backendUpdated s0 f.bad w4.run.back w.pcD
+  -- 5
+  .ok (dynStage sh f.bad w s0 hs0 hs1 w4)
+
+/-- the template dereferences `$backend.PathsMap` of every backend that needs ACLs: rendering a backend
+whose object never went through WriteBackendMaps fails (nil pointer inside the template) -/
+def badX (o : Opt) (s : Store p) (pm : Fin p → Bool) (x : Fin p) : Bool :=
+  match s.items x with
+  | some c => o.needACL (conf c) && !pm x
+  | none => false
+
+/-- the first shard file that cannot be rendered or written -/
+def shardLim (o : Opt) (sh : Sh p) (f : Fault) (s : Store p) (pm : Fin p → Bool) : Option Nat :=
+  if sh.n = 0 then none
+  else (List.range sh.n).find? fun k => s.changed k &&
+    (f.isShard k || anyFin fun x => decide (sh.shardOf x = k) && badX o s pm x)
+
+/-- stages 6 to 8 -/
+def post (o : Opt) (sh : Sh p) (f : Fault) (m : Mid p) : Res p :=
   -- 6
-  let doWrite := !updated || decide (0 < sends) || bchg
-  if doWrite && f == .mainCfg then { w := commitAll w5 s5 hs1, err := true, sends := sends } else
-  let shardFails := match f with
-    | .shard k => doWrite && decide (sh.n ≠ 0) && s5.changed k
-    | _ => false
-  let lim := match f with
-    | .shard k => if shardFails then some k else none
-    | _ => none
+  let doWrite := !m.updated || decide (0 < m.sends) || m.bchg
+  let mainBad := decide (sh.n = 0) && anyFin (badX o m.s m.w.pmI)
+  if doWrite && (f == .mainCfg || mainBad) then { w := commitAll m.w m.s m.hs, err := true, sends := m.sends } else
+  let lim := shardLim o sh f m.s m.w.pmI
   let w6 : FW p := if doWrite then
-      { setDisk w5 (writeCfg sh s5 w5.g.w.disk lim) with
-        tcp := { w5.tcp with main := w.tcp.want }
-        mainHosts := anyFin fun x => (hs1.maps x).isSome      -- rendered from the `frontend.Maps` object
-        pcI := fun x => rendered sh s5 lim x || w5.pcI x }
-    else w5
-  if shardFails then { w := commitAll w6 s5 hs1, err := true, sends := sends } else
+      { setDisk m.w (writeCfg sh m.s m.w.g.w.disk lim) with
+        tcp := { m.w.tcp with main := m.w.tcp.want }
+        mainHosts := anyFin fun x => (m.hs.maps x).isSome      -- rendered from the `frontend.Maps` object
+        pcI := fun x => rendered sh m.s lim x || m.w.pcI x }
+    else m.w
+  if doWrite && lim.isSome then { w := commitAll w6 m.s m.hs, err := true, sends := m.sends } else
   -- 7
-  if updated then { w := commitAll w6 s5 hs1, sends := sends } else
+  if m.updated then { w := commitAll w6 m.s m.hs, sends := m.sends } else
   -- 8
-  if o.queue then { w := commitAll { w6 with pending := true } s5 hs1, sends := sends } else
+  if o.queue then { w := commitAll { w6 with pending := true } m.s m.hs, sends := m.sends } else
   let r := reload sh f w6
-  { w := commitAll r.1 s5 hs1, err := r.2, sends := sends }
+  { w := commitAll r.1 m.s m.hs, err := r.2, sends := m.sends }
+
+/-- one `HAProxyUpdate` with fault `f` -/
+def upd (o : Opt) (sh : Sh p) (f : Fault) (w : FW p) : Res p :=
+  match pre o sh f w with
+  | .error r => r
+  | .ok m => post o sh f m
 
 /-- one run of the reload queue worker (`Services.reloadHAProxy`): a failed `Reload` puts the item back -/
 def qrun (sh : Sh p) (f : Fault) (w : FW p) : Res p :=
@@ -295,10 +348,12 @@ def setStore (w : FW p) (s : Store p) : FW p := { w with g := { w.g with w := { 
 def step (o : Opt) (sh : Sh p) (w : FW p) : Ev p → FW p
   | .acq x c =>
     { setStore w (acquire sh w.g.w.store x c) with
-      pcI := fun y => if y = x ∧ w.g.w.store.items x = none then false else w.pcI y }
+      pcI := fun y => if y = x ∧ w.g.w.store.items x = none then false else w.pcI y
+      pmI := fun y => if y = x ∧ w.g.w.store.items x = none then false else w.pmI y }
   | .rem xs =>
     { setStore w (removeAll sh w.g.w.store xs) with
-      pcD := fun y => if xs.contains y ∧ (w.g.w.store.items y).isSome then w.pcI y else w.pcD y }
+      pcD := fun y => if xs.contains y ∧ (w.g.w.store.items y).isSome then w.pcI y else w.pcD y
+      pmD := fun y => if xs.contains y ∧ (w.g.w.store.items y).isSome then w.pmI y else w.pmD y }
   | .hacq x c => { w with h := w.h.acquire x c }
   | .hrem xs => { w with h := w.h.removeAll xs }
   | .tcp v => { w with tcp := { w.tcp with want := v, changed := true } }
@@ -306,7 +361,8 @@ def step (o : Opt) (sh : Sh p) (w : FW p) : Ev p → FW p
     { w with g := { w := { w.g.w with store := clear sh w.g.w.store }, committed := false }
              h := w.h.clear
              tcp := { w.tcp with want := 0, changed := false }
-             pcD := w.pcI }
+             pcD := w.pcI
+             pmD := w.pmI }
   | .upd f => (upd o sh f w).w
   | .qrun f => (qrun sh f w).w
 
@@ -355,5 +411,136 @@ def RunGood (sh : Sh p) (w : FW p) : Prop :=
   (∀ x, w.run.maps x = (load sh w).maps x) ∧
   (∀ x, w.run.bm x = (load sh w).bm x) ∧
   w.run.tcpMap = w.tcp.map ∧ w.run.tcpCrt = w.tcp.crt ∧ w.run.tcpMain = w.tcp.main
+
+/-! ### the same cycle over opaque files (world runner)
+
+The end-to-end harness cannot name hosts and backends; it runs a fault-free TWIN controller on the
+same history and reports, per reconcile, the files the twin wrote (in write order, split at the
+dynamic update) with their content, whether it asked for a reload and how many Sends it made.
+Because `Commit()` runs on every path, the in-memory model of the faulty controller is the twin's;
+so the faulty controller attempts exactly the twin's writes, stops at the first file that cannot
+be written, and never comes back to it: that is what `wstep` replays.  Content is split in
+`ns` (everything but server lines) and `srv` (the server lines: what runtime commands change). -/
+
+structure FileFact where
+  name : String
+  ns : String
+  srv : String
+deriving DecidableEq, Repr
+
+structure StepFact where
+  reload : Bool
+  sends : Nat
+  pre : List FileFact        -- tcp maps, frontend crt-list + maps, backend maps, tcp crt-lists
+  post : List FileFact       -- modsec, error files, lua, haproxy.cfg, shard files
+
+inductive WFault where
+  | none
+  | files (l : List String)  -- these files cannot be written
+  | reloadSend
+  | reloadResult
+  | admin                    -- some Send fails
+deriving DecidableEq, Repr
+
+def put (m : List FileFact) (f : FileFact) : List FileFact :=
+  if m.any (·.name == f.name) then m.map fun g => if g.name == f.name then f else g else m ++ [f]
+
+def get? (m : List FileFact) (n : String) : Option FileFact := m.find? (·.name == n)
+
+/-- writes `fs` in order until the first blocked file; returns the files and whether it stopped -/
+def writeUntil (blocked : List String) (disk : List FileFact) : List FileFact → List FileFact × Bool
+  | [] => (disk, false)
+  | f :: fs => if blocked.contains f.name then (disk, true) else writeUntil blocked (put disk f) fs
+
+structure WState where
+  disk : List FileFact := []      -- files of the faulty controller
+  twin : List FileFact := []      -- files of the twin
+  run : List FileFact := []       -- what the faulty controller's HAProxy holds
+  errs : List Bool := []
+  preFault : Bool := false        -- a write failed before stage 4: objects without `pathConfig` exist
+  fmFault : Bool := false         -- `frontend.Maps` is older than the hosts
+  mapsNil : Bool := true          -- `frontend.Maps == nil`: WriteFrontendMaps never succeeded
+  front : List FileFact := []     -- the frontend files as of the twin's last WriteFrontendMaps
+  known : Nat := 0                -- number of leading reconciles the facts describe exactly
+  unknown : Bool := false         -- the facts of the twin no longer describe the faulty controller
+
+def isFront (n : String) : Bool := n.startsWith "maps/_front_"
+def crtList : String := "maps/_front_bind_crt.list"
+
+/-- write order of the files written before the dynamic update -/
+def preRank (n : String) : Nat :=
+  if n.startsWith "maps/_tcp_sni_" then 0
+  else if n == crtList then 1
+  else if isFront n then 2
+  else if n.startsWith "maps/_back_" then 3
+  else 4
+
+def wstep (st : WState) (t : StepFact) (f : WFault) : WState :=
+  let twin := (t.pre ++ t.post).foldl put st.twin
+  let blocked := match f with | .files l => l | _ => []
+  let adminFault := f == .admin && decide (0 < t.sends)
+  -- hidden couplings the facts cannot express (modelled exactly in `upd`, see `pcI`/`pcD`, `mainHosts`)
+  -- `preFault`: besides `pathConfig`, `alignSlots` did not run for the objects of the failed update; the
+  -- next update that reloads aligns (and flags, and rewrites) them
+  let unknown := st.unknown || adminFault || (st.preFault && (decide (0 < t.sends) || t.reload)) ||
+    (st.fmFault && t.post.any (·.name == "cfg/haproxy.cfg") && !(t.pre.any (·.name == crtList)))
+  -- while `frontend.Maps == nil` the guard of WriteFrontendMaps does not skip: the faulty controller
+  -- writes the frontend files (the twin's current ones) even though the twin does not
+  let writesFront := t.pre.any (·.name == crtList)
+  let front := if writesFront then t.pre.filter fun g => isFront g.name else st.front
+  let extra := if st.mapsNil && !writesFront then
+      (front.filter fun g => g.name == crtList) ++ (front.filter fun g => g.name != crtList)
+    else []
+  let st := { st with front := front, known := if unknown then st.known else st.known + 1 }
+  let pre := (t.pre.filter fun g => preRank g.name == 0) ++ extra ++ (t.pre.filter fun g => preRank g.name != 0)
+  let (d1, stop1) := writeUntil blocked st.disk pre
+  if stop1 then
+    { st with disk := d1, twin := twin, errs := st.errs ++ [true], preFault := true
+              fmFault := st.fmFault || (blocked.any isFront && !st.mapsNil), unknown := unknown }
+  else
+  let st := { st with mapsNil := st.mapsNil && !writesFront && extra.isEmpty }
+  let fmFault := st.fmFault && !writesFront
+  -- the Sends reach HAProxy before writeConfig.  They are computed against the servers the in-memory
+  -- model believes to be running (the twin's files before this step); HAProxy answers "No such
+  -- server." for a file it never read, and the update falls back to a reload
+  let changed := t.post.filter fun g => (get? st.twin g.name).map (·.srv) != some g.srv
+  let knows := changed.all fun g => (get? st.run g.name).map (·.srv) == (get? st.twin g.name).map (·.srv)
+  let never := changed.all fun g => (get? st.run g.name).isNone
+  let sending := decide (0 < t.sends)
+  let (d2, stop2) := writeUntil blocked d1 t.post
+  -- Sends of an update that reloads anyway: which of them changed a running server is not in the facts;
+  -- it only matters when the reload does not follow
+  let unknown := unknown || (sending && !knows && !never) ||
+    (sending && t.reload && (stop2 || f == .reloadSend || f == .reloadResult))
+  let applied := sending && !adminFault && knows
+  let needReload := t.reload || (sending && !applied)
+  let run1 := if applied && !t.reload then
+      t.post.foldl (fun r g => match get? r g.name with
+        | some h => put r { h with srv := g.srv }
+        | none => r) st.run
+    else st.run
+  if stop2 then
+    { st with disk := d2, twin := twin, run := run1, errs := st.errs ++ [true], fmFault := fmFault, unknown := unknown }
+  else
+  if needReload then
+    if f == .reloadSend || f == .reloadResult then
+      { st with disk := d2, twin := twin, run := run1, errs := st.errs ++ [true], fmFault := fmFault, unknown := unknown }
+    else
+      { st with disk := d2, twin := twin, run := d2, errs := st.errs ++ [false], fmFault := fmFault, unknown := unknown }
+  else
+    { st with disk := d2, twin := twin, run := run1, errs := st.errs ++ [false], fmFault := fmFault, unknown := unknown }
+
+def wrun (st : WState) : List (StepFact × WFault) → WState
+  | [] => st
+  | (t, f) :: r => wrun (wstep st t f) r
+
+/-- files whose content differs from the twin's -/
+def WState.diff (st : WState) : List String :=
+  (st.twin.filter fun t => get? st.disk t.name != some t).map (·.name)
+/-- files that HAProxy did not read as they are now (server lines aside) -/
+def WState.unloaded (st : WState) : List String :=
+  (st.disk.filter fun d => (get? st.run d.name).map (·.ns) != some d.ns).map (·.name)
+def WState.tableOK (st : WState) : Bool :=
+  st.disk.all fun d => ((get? st.run d.name).map (·.srv)).getD "0" == d.srv
 
 end HapVerif.C12
